@@ -5,6 +5,7 @@
 //!   rlv shard <ID> <tier> <seed> <shard> <nshards> <out.json>      (internal)
 //!   rlv replay <ID> <file> [--strict]
 
+mod crash;
 mod driver;
 mod model;
 mod ops;
